@@ -76,12 +76,12 @@ CONFIG = {
         "rule": "the label of every legal move at every node, compared with the model's label, which the runner verifies against SanSpec (FIDE/PGN rule) and for pairwise distinctness",
     },
     "C16": {
-        "ignore_ops": ("new",), "spec_tags": ("snap", "verdict", "watch"), "sample_tags": ("snap",),
+        "ignore_ops": ("new",), "spec_tags": ("snap", "verdict", "watch"), "sample_tags": ("snap",), "panic_tags": ("apply", "undo", "snap", "verdict"),
         "snap_fields": ("half", "full"),
         "rule": "both counters after every ply of long reference-tracked games (the rules' successor tracks plies since the last capture or pawn move) and the game-ending verdict around the thresholds",
     },
     "C18": {
-        "ignore_ops": NODE_IGNORE, "sample_tags": ("flipmat", "score"), "spec_tags": ("mat", "flipmat"),
+        "ignore_ops": NODE_IGNORE, "sample_tags": ("flipmat", "score"), "spec_tags": ("mat", "flipmat"), "panic_tags": ("score", "mat", "flipmat"),
         "rule": "static score of a position and of its colour-swapped 180-degree rotation (harness decides antisymmetry), score() at depths 0..255, on reachable and material-extreme set-ups; compared with the model",
     },
     "C19": {
@@ -89,7 +89,7 @@ CONFIG = {
         "rule": "coordinate text of every legal move and the move reconstructed from it by the Stockfish-bridge reader (hook), compared with the model and with the standard form",
     },
     "C07": {
-        "ignore_ops": ("pos", "sctx", "apply", "toggle", "undo"), "spec_tags": ("search", "snap"), "sample_tags": ("search",),
+        "ignore_ops": ("pos", "sctx", "apply", "toggle", "undo"), "spec_tags": ("search", "snap"), "sample_tags": ("search",), "panic_tags": ("search", "snap"),
         "search_mode": "legal",
         "rule": "alpha_beta_search at depths 0..3 in rayon pools of 1..64 threads on corpus positions (mated, stalemated, single-reply, in-check ones included) and on "
                 "positions met along random walks, under catch_unwind: the answer must be a member of the rules' legal-move set (or NoAvailableMoves / DepthTooLow exactly "
